@@ -210,3 +210,21 @@ PROP_INFO["C13"] = {
     "bounds": "AST-level: the three name spellings a, 'a', \"a\" (as the parser hands them to the evaluator) select the same member of a 2-member object",
     "outside": ["optional blank space, .* vs [*], ?expr vs ?(expr), redundant parentheses: resolved in the pest grammar, which does not go through CBMC", "number literal spellings (parser)"],
 }
+
+# ----------------------------------------------------------------------------- C03
+_C03F = ["query::state::Pointer::idx", "query::state::Pointer::key", "core::fmt (real formatter, no stub)"]
+PROPS["C03"] = [
+    H("selector", "c03_idx_path", funcs=_C03F, symbolic="index 0..9999", shape="Pointer::idx on path $", est=15),
+    H("selector", "c03_key_path_plain", funcs=_C03F, symbolic="one printable ASCII byte other than ' and \\", shape="Pointer::key on path $", est=15),
+    H("selector", "c03_roleb_key_path_escaped", funcs=_C03F, role="B", symbolic="one byte in {' \\ LF TAB}", shape="Pointer::key on path $", est=15),
+    H("selector", "c03_index_route_len3", funcs=_C03F + ["query::selector::process_index"], symbolic="i in -4..3", shape="array of 3", est=25),
+    H("selector", "c03_slice_route", tiers="t", funcs=_C03F + ["query::selector::process_slice"], symbolic="start absent or 0..2, end absent, step in {-1,-2}", shape="array of 3", est=2000, timeout=3000),
+    H("selector", "c03_slice_route_fixed", tiers="t", timeout=3000, funcs=_C03F + ["query::selector::process_slice"], symbolic="element payloads only (slice parameters concrete: [::-2], [1::-1])", shape="array of 3", est=60),
+    H("selector", "c03_wildcard_route", funcs=_C03F + ["query::selector::process_wildcard"], symbolic="member values", shape="object {b,a} under $[7]; array of 2 under $['x']", est=90),
+    H("selector", "c03_key_route_plain", funcs=_C03F + ["query::selector::process_key"], symbolic="member value", shape="names a and 'a' on {a}", est=15),
+    H("selector", "c03_rolec_key_route_dquote", funcs=_C03F + ["query::selector::process_key"], role="C", symbolic="member value", shape="name \"a\" on {a}", est=15),
+]
+PROP_INFO["C03"] = {
+    "bounds": "index steps 0..9999; one-byte ASCII member names; routes: index (incl. negative) and slice (incl. negative steps) on arrays of 3, wildcard on a 2-member object and a 2-element array, name selector in shorthand / single / double quoted spelling; real core::fmt",
+    "outside": ["running a reported path as a query (needs the pest parser on a symbolic string: out of reach)", "multi-byte member names, names longer than one byte", "paths through descendant and filter routes (multi-stage, see C02)", "indices above 9999"],
+}
